@@ -109,3 +109,12 @@ CHECKS["C02"] = _c(
     "Trusted: aws-sdk-s3's encoder; DTO PartialEq; the harness's reading of the model bindings (used for alphabets and for excusing members the SDK adds itself, only when the tapped request carries them). Members the SDK computes or rewrites are not generated.",
     "DESIGN.md 3/C02",
 )
+
+CHECKS["C03"] = _c(
+    "exploration",
+    "runtime monitoring: scripted recording backend returns generated typed outputs (plus status override / extra headers); aws-sdk-s3 decodes the real response; member-wise DTO comparison and raw status/header checks on the tapped response; keep-alive completion observed frame by frame under a paused (virtual) tokio clock with an independent XML reader",
+    "harness (looped engine + raw request driver with virtual time)",
+    "For every operation and every member of its output structure (systematic per member, random subsets, response-side alphabets) the value returned by the backend must be the value the official SDK decodes, the raw status must be the model's success code (206 for ranged GetObject) or the backend's override, and every extra header (incl. repeated names) must be on the wire. For CompleteMultipartUpload the backend completes after d virtual ms for every d around the first three 100 ms ticks and random d up to 1 s, with an output or a late error, drained eagerly and lazily: the body must be declaration? whitespace* document, XML members equal, header-bound members present in the declared HTTP trailers, a late error rendered as an S3 error document. Held on the executions observed.",
+    "Trusted: aws-sdk-s3's decoder, the reference XML reader, tokio's paused clock. Empty string vs absent on the response side and PutBucketPolicy's 204 (model says 200, S3 answers 204) get no verdict; response metadata is judged in one-hop configurations only.",
+    "DESIGN.md 3/C03",
+)
